@@ -162,6 +162,24 @@ def gen_case(rng, cid):
                 forms.append('(rdsx)')
             p = ev('(list ' + ' '.join(f'{f} {al["y"] if f == "(rdsx)" else want}' for f in forms) + ')')
             probes.append(('pairs', p, forms))
+    # (c2) an alias named like a signal of the scope: ~n / #n follow the alias while it exists and denote S.n again after unalias
+    top = [n for n in names if n.startswith('top.') and '.' not in n[4:]]
+    if len(top) >= 2:
+        b1 = rng.choice(top)
+        cur = b1
+        for _ in range(6):
+            op = rng.choice(['alias', 'unalias', 'read', 'read'])
+            if op == 'alias':
+                cur = rng.choice([t for t in top if t != b1])
+                ev(f"(alias {b1[4:]} '{cur[4:]})")
+            elif op == 'unalias' and cur != b1:
+                ev(f'(unalias {b1[4:]})')
+                cur = b1
+            forms = [f'(in-scope "top" ~{b1[4:]})', f'(in-group "top." #{b1[4:]})']
+            p = ev('(list ' + ' '.join(f'{f} {cur}' for f in forms) + ')')
+            probes.append(('pairs', p, forms))
+        if cur != b1:
+            ev(f'(unalias {b1[4:]})')
     # (d) context restoration
     def nest(depth):
         if depth == 0 or rng.random() < 0.2:
